@@ -1047,6 +1047,9 @@ impl<'a> Run<'a> {
             }
             Ev::SetTimeout(ms) => {
                 let applied = self.rig.config.set_conn_timeout_ms(ms);
+                if let Some(t) = self.twin.as_mut() {
+                    t.call(TwinCmd::SetTimeout { ms })?;
+                }
                 self.timeout_prev = self.timeout;
                 self.timeout = applied;
                 self.timeout_changed_at = self.now();
@@ -1675,6 +1678,7 @@ pub enum TwinCmd {
     Client { at: u64, bytes: Vec<u8> },
     Uplink { at: u64, link: usize, bytes: Vec<u8> },
     BindFail { link: usize, on: bool },
+    SetTimeout { ms: u64 },
     Stop,
 }
 
@@ -1724,6 +1728,10 @@ impl Twin {
                             }
                             TwinCmd::BindFail { link, on } => {
                                 w.bind_fail[link] = on;
+                                StepOut::default()
+                            }
+                            TwinCmd::SetTimeout { ms } => {
+                                w.config.set_conn_timeout_ms(ms);
                                 StepOut::default()
                             }
                             _ => StepOut::default(),
